@@ -9,6 +9,7 @@
 
 #include "pedigreecolumncostcomputer.h"
 #include "pedigreedptable.h"
+#include "veriftrace.h"
 
 using namespace std;
 
@@ -91,6 +92,7 @@ void PedigreeDPTable::compute_table() {
 		return;
 	}
 
+	veriftrace::event("P", "begin", 0, input_column_iterator.get_column_count());
 	input_column_iterator.jump_to_column(0);
 	unique_ptr<vector<const Entry *> > current_input_column;
 	unique_ptr<vector<const Entry *> > next_input_column;
@@ -125,6 +127,7 @@ void PedigreeDPTable::compute_table() {
 
 		// determine whether to delete previous column (to save space)
 		if ((k>1) && (column_index > 0) && (((column_index-1)%k) != 0)) {
+			veriftrace::event("P", "free", column_index-1, input_column_iterator.get_column_count());
 			delete index_backtrace_table[column_index-1];
 			delete transmission_backtrace_table[column_index-1];
 			delete projection_column_table[column_index-1];
@@ -154,6 +157,7 @@ void PedigreeDPTable::compute_table() {
 		// compute index and transmission value for the current column
 		unique_ptr<ColumnIndexingIterator> iterator = indexers[i]->get_iterator();
 		unsigned int backtrace_index = iterator->index_backward_projection(v.index);
+		veriftrace::event("P", "read", i-1, input_column_iterator.get_column_count());
 		v.index = index_backtrace_table[i-1]->at(backtrace_index, prev_inheritance_value);
 		v.inheritance_value = prev_inheritance_value;
 		prev_inheritance_value = transmission_backtrace_table[i-1]->at(backtrace_index, v.inheritance_value);
@@ -162,6 +166,7 @@ void PedigreeDPTable::compute_table() {
 		if (i%k == 0) {
 			for (size_t j=i; (j<i+k) && (j<input_column_iterator.get_column_count()-1); ++j) {
 				assert(projection_column_table[j] != nullptr);
+				veriftrace::event("P", "free", j, input_column_iterator.get_column_count());
 				delete index_backtrace_table[j];
 				delete transmission_backtrace_table[j];
 				delete projection_column_table[j];
@@ -171,6 +176,7 @@ void PedigreeDPTable::compute_table() {
 			}
 		}
 	}
+	veriftrace::event("P", "end", 0, input_column_iterator.get_column_count());
 }
 
 
@@ -184,6 +190,7 @@ void PedigreeDPTable::compute_column(size_t column_index, unique_ptr<vector<cons
 		return;
 	}
 
+	veriftrace::event("P", "compute", column_index, input_column_iterator.get_column_count());
 	ColumnIndexingScheme* current_indexer = indexers[column_index];
 	assert(current_indexer != nullptr);
 
